@@ -378,6 +378,87 @@ fn script_checks(g: Gen, spec: &CmdSpec, script: &str) -> Vec<(&'static str, Str
     bad
 }
 
+/// The block of the script that belongs to one subcommand level (elvish, powershell, nushell
+/// have one literal block per level, keyed by the path of names).
+fn level_block<'a>(g: Gen, script: &'a str, path: &[String]) -> Option<&'a str> {
+    let (open, close): (String, &str) = match g {
+        Gen::Elvish => (format!("&'{}'= {{", path.join(";")), "\n        }"),
+        Gen::PowerShell => (format!("'{}' {{", path.join(";")), "break"),
+        Gen::Nushell => (
+            if path.len() == 1 { format!("export extern {} [", path[0]) } else { format!("export extern \"{}\" [", path.join(" ")) },
+            "\n  ]",
+        ),
+        _ => return None,
+    };
+    let start = script.find(&open)? + open.len();
+    let end = script[start..].find(close).map(|i| start + i).unwrap_or(script.len());
+    Some(&script[start..end])
+}
+
+/// Level-scoped coverage: what belongs to a level is in that level's block, and no option of
+/// another level is (names are unique across the tree, inherited globals excepted).
+fn level_scoped_checks(g: Gen, spec: &CmdSpec, script: &str) -> Vec<(&'static str, String, String)> {
+    let mut bad = Vec::new();
+    if !matches!(g, Gen::Elvish | Gen::PowerShell | Gen::Nushell) {
+        return bad;
+    }
+    // all (owner level name, long spelling) pairs of the tree
+    let mut all_longs: Vec<(String, String, bool)> = Vec::new();
+    spec.walk(
+        &mut |c, _| {
+            for a in c.args.iter().filter(|a| !a.is_positional()) {
+                if let Some(l) = &a.long {
+                    all_longs.push((c.name.clone(), l.clone(), a.global));
+                }
+            }
+        },
+        0,
+    );
+    fn rec<'a>(g: Gen, script: &str, c: &'a CmdSpec, path: &mut Vec<String>, globals: &mut Vec<&'a ArgSpec>, all_longs: &[(String, String, bool)], bad: &mut Vec<(&'static str, String, String)>, depth: usize) {
+        if depth > 2 {
+            return;
+        }
+        match level_block(g, script, path) {
+            None => bad.push(("coverage-missing", format!("{}/level-block", g.name()), format!("no block for level `{}` in the {} script", path.join(" "), g.name()))),
+            Some(block) => {
+                for a in c.args.iter().chain(globals.iter().copied()).filter(|a| !a.hide && !a.is_positional()) {
+                    if let Some(l) = &a.long {
+                        if !contains_token(block, &format!("--{l}")) {
+                            bad.push(("coverage-missing", format!("{}/long-at-level", g.name()), format!("--{l} is not mentioned in the block of level `{}` of the {} script", path.join(" "), g.name())));
+                        }
+                    }
+                }
+                for sub in c.subs.iter().filter(|x| !x.has(CmdSetting::Hide)) {
+                    if g != Gen::Nushell && !contains_token(block, &sub.name) {
+                        bad.push(("coverage-missing", format!("{}/subcommand-at-level", g.name()), format!("subcommand `{}` is not mentioned in the block of level `{}` of the {} script", sub.name, path.join(" "), g.name())));
+                    }
+                }
+                for (owner, l, is_global) in all_longs {
+                    let own = c.args.iter().chain(globals.iter().copied()).any(|a| a.long.as_deref() == Some(l.as_str()));
+                    if !own && !*is_global && *owner != c.name && contains_token(block, &format!("--{l}")) {
+                        bad.push(("coverage-foreign", format!("{}/long-of-other-level", g.name()), format!("--{l} belongs to `{owner}` but is mentioned in the block of level `{}` of the {} script", path.join(" "), g.name())));
+                    }
+                }
+            }
+        }
+        let n_glob = globals.len();
+        for a in c.args.iter().filter(|a| a.global) {
+            globals.push(a);
+        }
+        for sub in c.subs.iter().filter(|x| !x.has(CmdSetting::Hide)) {
+            path.push(sub.name.clone());
+            rec(g, script, sub, path, globals, all_longs, bad, depth + 1);
+            path.pop();
+        }
+        globals.truncate(n_glob);
+    }
+    let mut path = vec![spec.name.clone()];
+    let mut globals = Vec::new();
+    rec(g, script, spec, &mut path, &mut globals, &all_longs, &mut bad, 0);
+    bad.dedup_by(|a, b| a.0 == b.0 && a.1 == b.1);
+    bad
+}
+
 // ------------------------------------------------------------------------------------------
 // bash process
 
@@ -898,7 +979,7 @@ fn exec_sink(which: Which, sc: &SinkSc, log: &mut Log, out: &mut Outcome) {
         out.comparisons += 1;
         let listed = ["visible-short-alias-without-short", "zsh/possible-value-optional-value", "nushell/subcommand-alias"];
         let mut stop = false;
-        for (clause, site, d) in script_checks(g, &sc.spec, &ref_text) {
+        for (clause, site, d) in script_checks(g, &sc.spec, &ref_text).into_iter().chain(level_scoped_checks(g, &sc.spec, &ref_text)) {
             if !listed.contains(&site.as_str()) {
                 stop = true;
             }
